@@ -238,6 +238,9 @@ def _trees(inst):
 
 def replay(spec):
     inst = spec["inst"]
+    if "source" in inst and "fname" in inst:      # semantics part (program-family replay)
+        from . import famcheck
+        return famcheck.replay(spec)
     if inst.get("part") == "tree":
         got = compile_accepts(spec["source"])
         return None if got == spec["expect"] else dict(source=spec["source"], accepted=got)
@@ -263,6 +266,11 @@ def replay(spec):
 
 
 def run_instance(inst):
+    if inst["part"] == "semantics":
+        # an accepted break / continue refers to the innermost enclosing loop: the loop programs of the scalar core set on the
+        # real VM with symbolic inputs against the reference interpreter (same machinery as C01)
+        from . import famcheck
+        return famcheck.run_item(inst["item"], harness="C11")
     r = _step(inst) if inst["part"] == "step" else _trees(inst)
     r["sample"] = dict(inst)
     r["key"] = repr(sorted(inst.items()))
@@ -279,14 +287,19 @@ def run(tier, seed, only=None):
                           "harness B: every statement tree with the stated node counts containing a break/continue (exhaustive, concrete). "
                           "Non-trivial = a query mentioning d was discharged, or a tree with a break/continue was compiled")
     chk.bounds = {"A": "loop depth d >= 0 unbounded; node kinds: " + ", ".join(KINDS),
-                  "B": f"statement trees with 1..{4 if tier == 'quick' else 6} nodes over break, continue, expression, block, if, if/else, for, while, do",
+                  "B": f"statement trees with 1..{5 if tier == 'quick' else 7} nodes over break, continue, expression, block, if, if/else, for, while, do",
+                  "semantics": "the loop programs of the scalar core set (every loop form x break / continue / both / nested in if; every nesting of two loop forms with break or continue "
+                               "in the inner and in the outer loop) on the real VM with symbolic inputs against the reference interpreter",
                   "outside": "switch (not in the grammar); the induction over tree depth is a paper argument"}
     chk.assumptions = ["induction step composes: a tree is rejected iff some node's visit rejects (DESIGN.md C11)",
                        "stub children stand for arbitrary sub-trees (visitor dispatch is by class name only)"]
     insts = [dict(part="step", kind=k) for k in KINDS]
-    for n in range(1, (4 if tier == "quick" else 6) + 1):
-        of = 1 if n <= 4 else 16
+    for n in range(1, (5 if tier == "quick" else 7) + 1):
+        of = 1 if n <= 4 else (16 if n <= 6 else 64)
         insts += [dict(part="trees", nodes=n, shard=s, of=of) for s in range(of)]
+    from ..gen import core1
+    from . import famcheck
+    insts += [dict(part="semantics", item=famcheck.pack(it)) for it in core1.loops()]
     insts = [i for i in insts if only in (None, i["part"])]
     results = core.run_pool("vlib.harness.C11", "run_instance", insts, chunksize=1)
     for inst, r in zip(insts, results):
